@@ -38,6 +38,8 @@ func main() {
 		run(a)
 	case "live":
 		liveChild(a)
+	case "export":
+		exportChild(a)
 	default:
 		fmt.Fprintln(os.Stderr, "unknown mode", a.Mode)
 		os.Exit(2)
@@ -309,6 +311,48 @@ func gen(a vh.Args) {
 		for _, l := range lines {
 			w.Printf("%s\n", l)
 		}
+		// snapshots (regular + exported), log compaction, restart: this store, and the other one
+		for j, t := range []bool{sp.tan, !sp.tan} {
+			if j == 1 && a.Tier != "thorough" && i > 0 {
+				continue
+			}
+			tmp := fmt.Sprintf("%s/export_%d_%d.txt", a.Out, i, j)
+			_ = os.Remove(tmp + ".partial")
+			got := false
+			for attempt := 0; attempt < 2 && !got; attempt++ {
+				cmd := exec.Command(os.Args[0], "export", "-seed", fmt.Sprint(a.Seed*1000+uint64(i*10+j)+uint64(attempt)*500), "-tier", a.Tier, "-cases", tmp, "-out", a.Out)
+				cmd.Env = append(os.Environ(), fmt.Sprintf("C04_EXPORT_SPEC=%d,%d,%v", i, j, t))
+				outb, err := cmd.CombinedOutput()
+				if err == nil {
+					for _, l := range vh.ReadLines(tmp) {
+						w.Printf("%s\n", l)
+					}
+					for _, l := range strings.Split(strings.TrimSpace(string(outb)), "\n") {
+						if strings.HasPrefix(l, "c04:") {
+							fmt.Fprintln(os.Stderr, l)
+						}
+					}
+					got = true
+				} else if pl, perr := os.ReadFile(tmp + ".partial"); perr == nil && len(pl) > 0 {
+					// the process died while the replica was restarting from what its store holds:
+					// the trace recorded up to the restart plus "replica not restartable"
+					w.Printf("%s ; F k=5.1 i=0\n", strings.TrimRight(string(pl), "\n"))
+					fmt.Fprintf(os.Stderr, "c04: export run %d/%d: the process died during the restart of the replica\n", i, j)
+					got = true
+				} else {
+					head := string(outb)
+					if len(head) > 2500 {
+						head = head[:2500]
+					}
+					fmt.Fprintf(os.Stderr, "c04: export run %d/%d attempt %d crashed: %v\n%s\n", i, j, attempt, err, head)
+				}
+				_ = os.Remove(tmp)
+				_ = os.Remove(tmp + ".partial")
+			}
+			if !got {
+				os.Exit(1)
+			}
+		}
 	}
 	nU := 150
 	if a.Tier == "thorough" {
@@ -346,6 +390,38 @@ func gen(a vh.Args) {
 	for i := 0; i < nT; i++ {
 		w.Printf("T%d trace | %s\n", i, eventsStr(genTrace(r)))
 	}
+}
+
+// regular + exported snapshot, log compaction, restart of a single replica, in its own
+// process: a replica that cannot restart takes the process down from an engine goroutine. The
+// trace recorded up to the restart is written first (-cases + ".partial").
+func exportChild(a vh.Args) {
+	var i, j int
+	var tan bool
+	if _, err := fmt.Sscanf(os.Getenv("C04_EXPORT_SPEC"), "%d,%d,%t", &i, &j, &tan); err != nil {
+		fmt.Fprintln(os.Stderr, "bad C04_EXPORT_SPEC")
+		os.Exit(2)
+	}
+	line := func(evs []event) string {
+		return fmt.Sprintf("L%dx%d live export tan=%v | %s\n", i, j, tan, eventsStr(evs))
+	}
+	etrace, enotes, err := exportRun(a.Seed, tan, func(evs []event) {
+		_ = os.WriteFile(a.Cases+".partial", []byte(line(evs)), 0644)
+	})
+	if err != nil {
+		fmt.Fprintf(os.Stderr, "c04: export run %d (tan=%v) failed: %v\n", i, tan, err)
+		os.Exit(1)
+	}
+	var ek []string
+	for k, v := range enotes {
+		ek = append(ek, fmt.Sprintf("%s=%d", k, v))
+	}
+	sort.Strings(ek)
+	fmt.Fprintf(os.Stderr, "c04: export run %d tan=%v: %s\n", i, tan, strings.Join(ek, " "))
+	if err := os.WriteFile(a.Cases, []byte(line(etrace)), 0644); err != nil {
+		os.Exit(1)
+	}
+	_ = os.Remove(a.Cases + ".partial")
 }
 
 // one live cluster run in its own process (see gen)
@@ -507,7 +583,7 @@ func run(a vh.Args) {
 					st.Count("verdict_" + codeText[r.badCode])
 					// a durability probe is judged at its read-back only (keeps shrunk replays meaningful)
 					probe := strings.Contains(rest, "probe=")
-					if probe && r.badCode == codeCompletedLost && r.img.term == 0 && len(r.img.log) == 0 {
+					if r.badCode == codeCompletedLost && strings.HasPrefix(r.badWhy, "not-readable") && r.img.term == 0 && len(r.img.log) == 0 {
 						continue // nothing had been acknowledged (shrunk replay)
 					}
 					if kind == "live" && (!probe || r.badWhy != "" || r.badCode == codeCompletedLost) {
